@@ -543,6 +543,13 @@ substitute_decl(CPPDeclaration::SubstDecl &subst,
   }
 
   CPPInstance *rep = new CPPInstance(*this);
+
+  // The type or the initializer may refer back to this very instance (an
+  // enumerator defined in terms of the enclosing template); record the
+  // replacement first, so that such a reference finds it instead of starting
+  // the substitution over again.
+  subst[this] = rep;
+
   CPPDeclaration *new_type =
     _type->substitute_decl(subst, current_scope, global_scope);
   rep->_type = new_type->as_type();
@@ -563,7 +570,7 @@ substitute_decl(CPPDeclaration::SubstDecl &subst,
     rep = this;
   }
 
-  subst.insert(SubstDecl::value_type(this, rep));
+  subst[this] = rep;
   return rep;
 }
 
